@@ -65,6 +65,14 @@ theorem C03_parses (F : NumFmt) (e : PExpr) (hf : finiteLits e = true) (hn : num
     (parseExpressionStr (printTop F e)).isOk = true := by
   rw [parseExpressionStr_printTop F e hf hn]; rfl
 
+/-- A second round trip is the identity: the re-parsed tree has the shape the parser produces (no prefix
+plus, literals non-negative and purely real or purely imaginary), such trees are fixed points of `norm`,
+hence `norm` is idempotent. -/
+theorem C03_normal_form (e : PExpr) (hf : finiteLits e = true) :
+    parserShaped (norm e) = true ∧ norm (norm e) = norm e ∧
+      ∀ e' : PExpr, parserShaped e' = true → norm e' = e' :=
+  ⟨norm_parserShaped e hf, norm_norm e hf, norm_eq_self⟩
+
 /-! ## the NumTok hypothesis for the concrete formatter, as far as it can be proved -/
 
 /-- For `stdFmt` the hypothesis is trivially true of every component that is written as a `Float` token
